@@ -24,7 +24,7 @@ func effectReachers(w *core.World) map[*ssa.Function]bool {
 	res := map[*ssa.Function]bool{}
 	var work []*ssa.Function
 	for _, f := range w.RepoFns {
-		for _, c := range core.Calls(f) {
+		for _, c := range core.OwnCalls(f) {
 			if isEffectCall(c) {
 				if !res[f] {
 					res[f] = true
@@ -184,7 +184,7 @@ func c03(w *core.World, r *core.Report) {
 		if f.Pkg == nil || f.Pkg.Pkg.Path() != core.Module+"/pkg/types" {
 			continue
 		}
-		for _, c := range core.Calls(f) {
+		for _, c := range core.OwnCalls(f) {
 			if !core.CalleeIs(c, "errors.Join", "fmt.Errorf", "errors.New") {
 				continue
 			}
